@@ -6,16 +6,21 @@
 (* and `stopr` after the respective call):                                 *)
 (*   reset  {kind, nl, qsize}       new executor (also separates traces)   *)
 (*   idx    {h, r}                  MultiLine.IndexOf(hash class h) = r    *)
-(*   run | stopi | stopr                                                   *)
+(*   run                                                                   *)
+(*   stopi {by} | stopr {by}        Stop called / returned (by: 0 owner,   *)
+(*                                  c: the callee of running call c)       *)
 (*   inv    {c, h, fail, pre}       caller c enters AsyncCall              *)
 (*   start  {c, lane, g}            callee entered: lane index it was      *)
 (*                                  given (g: goroutine, for the reader)   *)
 (*   end    {c}                     callee about to return                 *)
 (*   ret    {c, r}                  reply received by the caller           *)
 (*   cancel {c}                                                            *)
-(*   quiet  {alive, term}           every goroutine is parked: some        *)
+(*   quiet  {alive, term, final}    every goroutine is parked: some        *)
 (*                                  goroutine of the executor is left,     *)
-(*                                  owner's wait for termination returned  *)
+(*                                  owner's wait for termination returned; *)
+(*                                  final: the harness has started the     *)
+(*                                  consumers, called Stop and opened      *)
+(*                                  every gate a callee reached            *)
 (* Not logged, inferred by TLC (silent steps): the moment a submission     *)
 (* takes effect and its outcome (acceptance order!), a consumer skipping a *)
 (* call whose context ended, Stop closing a lane; a consumer leaving is    *)
@@ -71,7 +76,7 @@ TStart(e) ==
 (* open: MultiLine.Stop starts its exit signaller even then.)               *)
 TQuiet(e) ==
   /\ ExitSet({x \in LaneIds : CanExit(x)})
-  /\ Quiescent'
+  /\ IF e.final THEN Final' ELSE Quiescent'
   /\ e.term = (started /\ \A x \in LaneIds : ~up'[x])
   /\ (\E x \in LaneIds : up'[x]) => e.alive    \* a live lane is a live goroutine
   /\ e.term => ~e.alive                        \* after termination nothing of the executor is left
@@ -85,16 +90,26 @@ Consume ==
          [] e.ev = "start"  -> TStart(e)
          [] e.ev = "quiet"  -> TQuiet(e)
          [] e.ev = "run"    -> Step([op |-> "run"])
-         [] e.ev = "stopi"  -> IF stopst = "no" THEN Step([op |-> "stopi"])
-                               ELSE stopst = "done" /\ UNCHANGED allvars   \* Stop again: no-op
+         [] e.ev = "stopi"  -> IF stopst = "no" THEN Step([op |-> "stopi", by |-> e.by])
+                               ELSE UNCHANGED allvars                      \* Stop again: no-op
          [] e.ev = "stopr"  -> IF stopst = "ing" THEN Step([op |-> "stopr"])
-                               ELSE stopst = "done" /\ UNCHANGED allvars
+                               ELSE stopst = "done" /\ UNCHANGED allvars  \* a second Stop returning
          [] e.ev = "inv"    -> Step([op |-> "inv", c |-> e.c, h |-> e.h, fail |-> e.fail, pre |-> e.pre])
                               
          [] e.ev = "end"    -> Step([op |-> "end", c |-> e.c])
          [] e.ev = "ret"    -> Step([op |-> "ret", c |-> e.c, r |-> e.r])
          [] e.ev = "cancel" -> Step([op |-> "cancel", c |-> e.c])
          [] OTHER -> FALSE
+
+(* A Stop that is parked (it may wait for the lanes) has closed whatever it  *)
+(* closes; besides the per-lane inference above only "everything" is tried  *)
+(* (which lanes are closed shows only in `term`, i.e. when all are).        *)
+CloseAll ==
+  /\ stopst = "ing" /\ \E x \in LaneIds : Used(x) /\ ~qclosed[x]
+  /\ qclosed' = [x \in LaneIds |-> qclosed[x] \/ Used(x)]
+  /\ last' = [op |-> "closeall"]
+  /\ UNCHANGED <<kind, nl, qsize, slot, started, up, stopst, queue, cs, cw, rj, info, lane, ctxd,
+                 late, rv, acc, sto, nst>>
 
 (* Silent steps.  Stop closing a lane before it returns matters only to a    *)
 (* submission that is still pending (and, for pchan, to a waiting caller,   *)
@@ -110,6 +125,7 @@ Silent ==
           /\ \E c \in Calls : \/ cw[c] = "called" /\ slot[info[c].h] \in {Unknown, x}
                               \/ cw[c] = "wait" /\ kind = "pchan"
           /\ Step([op |-> "close", l |-> x])
+     \/ CloseAll
 
 TraceNext == Consume \/ Silent
 TraceSpec == TraceInit /\ [][TraceNext]_tvars
